@@ -99,7 +99,8 @@ theorem C16_history_independent (history : List (SemQuery × Table × Table)) (q
 query() / query_table() stores to or mutates a module-level mutable or `global` name, no class-level mutable
 attribute, no mutable default argument — the source-level support for "each query owns its state" -/
 theorem C16_no_shared_writes :
-    Generated.writtenOnQueryPath = [] ∧ Generated.classLevelMutable = [] ∧ Generated.mutableDefaults = [] := by
+    Generated.writtenOnQueryPath = [] ∧ Generated.classLevelMutable = [] ∧ Generated.mutableDefaults = [] ∧
+    Generated.sharedInstancesUsed = [] := by
   decide
 
 end Rbql
